@@ -28,7 +28,7 @@ def selected(prog, ign, inst_first):
     idx = set(i for i in ign if isinstance(i, int) and not isinstance(i, bool))
     # positional-or-keyword parameters still open in a call: the underlying ones minus the bound instance
     # minus those consumed by the partial's positionals
-    under = sk.PNAMES[:prog['npos']]
+    under = sk.pnames(prog)
     if prog['kind'] in ('partial', 'partial_method'):
         under = under[prog['p_npos']:]
     remaining = (['self'] if inst_first else []) + under
@@ -85,7 +85,7 @@ def run_program(tier, idx, prog=None, plan=None, seed=None):
         def enc_kw(k): return repr({n: enc_v(v) for n, v in k.items()})
         def dec_kw(sx): return {n: dec_v(v) for n, v in eval(sx).items()}
         if plan is not None: ncalls = len(plan)
-        npo_names = set(sk.PNAMES[:min(prog.get('nposonly', 0), prog['npos'])])
+        npo_names = set(sk.pnames(prog, min(prog.get('nposonly', 0), prog['npos'])))
         for ci in range(ncalls):
             nviol0 = len(viol)
             if plan is not None:
@@ -167,7 +167,7 @@ def run_program(tier, idx, prog=None, plan=None, seed=None):
                         sk.full_bind(f, a4, k4); sk.sbind(sig, a4, k4)
                         group.append(('retype', a4, k4, (kind, pos)))
                     except (TypeError, ValueError): pass
-                names2 = [n for n in sk.PNAMES[:prog['npos']] if n in sel0['remaining']][:2]
+                names2 = [n for n in sk.pnames(prog) if n in sel0['remaining']][:2]
                 if len(names2) == 2 and not inst_first:
                     try:
                         ka, kb = {names2[0]: 1, names2[1]: 1.0}, {names2[1]: 1, names2[0]: 1.0}
@@ -394,13 +394,13 @@ def mutated_selected(prog, sel, kind, pos, args, inst_first):
         if not prog['varargs']: return None
         return sel['star'] or (i in sel['idx'])
     name = pos
-    if name in sk.PNAMES[:min(prog.get('nposonly', 0), prog['npos'])]:
+    if name in sk.pnames(prog, min(prog.get('nposonly', 0), prog['npos'])):
         # a keyword that merely shares the name of a positional-only parameter is an extra keyword (it lands in **kw)
         if not prog['varkw'] or sel['dstar'] or sel['idx'] or name in sel['names']: return None
         return False
     if name in rem:
         return (name in sel['names']) or (rem.index(name) in sel['idx'])
-    if name in sk.KWONLY[:prog['nkw']] or name in sk.PNAMES[:prog['npos']]:
+    if name in sk.KWONLY[:prog['nkw']] or name in sk.pnames(prog):
         return name in sel['names']
     if not prog['varkw']: return None
     return sel['dstar'] or (name in sel['names'])
